@@ -16,7 +16,7 @@ from ..ref import laminate as rl
 
 RULE = ('one case = one (laminate, aspect ratio, load ratio or frequency, restraint pattern); inside it every (m,n) of the square range is '
         'solved and every lattice edge compared; non-trivial = all')
-ASSUMPTIONS = ['dense symmetric-definite solver (scipy eigh) on the package matrices restricted to active amplitudes',
+ASSUMPTIONS = ['dense symmetric-definite solver (scipy eigh) on the package matrices restricted to active amplitudes; eigen-solver noise floor max(1e-7, 200 eps (side/thickness)^2) relative',
                'monotonicity tolerance 1e-7 relative (dense eigen-solver noise floor ~2e-9); closed forms: double-sine series for SSSS specially orthotropic plates (with rotary inertia)']
 LAMS = {'uni0': [0.], 'uni90': [90.], 'cross_sym': [0., 90., 90., 0.], 'iso': None,
         # plies of unequal thickness (symmetric about the mid-surface, so B = 0 and D16 = D26 = 0 still hold)
@@ -171,6 +171,10 @@ def check_case(case):
             for n in range(lo, M + 1):
                 vals[(m, n)], geo = solve(case, m, n)
     execs = len(vals)
+    # eigen-solver noise floor of the lowest (bending) eigenvalues: the in-plane amplitudes are stiffer by (side / thickness)^2
+    a_, b_, stack_, mat_, plyt_ = geo
+    h_ = sum(plyt_) if isinstance(plyt_, (list, tuple)) else plyt_ * len(stack_)
+    noise = max(1e-7, 200 * 2.220446049250313e-16 * (max(a_, b_) / h_) ** 2)
     # the same Panel object taken through a sequence of series orders ("add one term in either direction") must reproduce the values of
     # freshly defined panels
     path = [q for q in ((lo + 1, lo), (lo, lo + 1), (lo + 2, lo), (lo, lo + 2), (lo + 1, lo + 1)) if q in vals]
@@ -196,7 +200,7 @@ def check_case(case):
                 k = min(len(v), len(w))
                 rise = (w[:k] - v[:k]) / np.abs(v[:k])
                 worst = max(worst, float(rise.max()))
-                if rise.max() > 1e-7:
+                if rise.max() > noise:
                     fails.append(fail('adding series terms raised one of the lowest eigenvalues', sig=None, case=case, frm=[m, n], to=list(nb),
                                       before=v[:k], after=w[:k]))
                     break
@@ -207,7 +211,7 @@ def check_case(case):
         ex = closed_form(case, *geo, NEIG)
         for (m, n), v in vals.items():
             k = min(len(v), len(ex))
-            if np.any(v[:k] < ex[:k] * (1 - 1e-7)):      # dense eigen-solver noise floor at order 16 is ~1e-8
+            if np.any(v[:k] < ex[:k] * (1 - noise)):      # dense eigen-solver noise floor at order 16 is ~1e-8 for ordinary plies
                 fails.append(fail('a Ritz eigenvalue lies below the closed-form double-sine value', sig=None, case=case, orders=[m, n],
                                   ritz=v[:k], closed_form=ex[:k]))
                 break
